@@ -947,8 +947,15 @@ func checkRestoreKeepsFlags(c *core.Ctx, rule string) {
 						bad = append(bad, "Key <- "+s.String())
 					}
 				}
-				c.Check(len(bad) == 0, rule, key, c.P.Pos(ins.Pos()), "re-stored under the metadata's OrigFlags and the command's key",
-					"the value read back is stored again with "+strings.Join(uniq(bad), ", ")+" instead of the flags recorded in the item's metadata / the command's key: an append or prepend changes the item's flags")
+				// these commands carry no TTL either (the binary request has no extras, the text parser ignores the
+				// word): the expiry re-stored must be the one recorded in the metadata, or the item's lifetime changes
+				for _, s := range pv.Sources(a, "Exptime") {
+					if !(s.Kind == "call" && len(s.Path) > 0 && s.Path[len(s.Path)-1] == "Exptime") {
+						bad = append(bad, "Exptime <- "+s.String())
+					}
+				}
+				c.Check(len(bad) == 0, rule, key, c.P.Pos(ins.Pos()), "re-stored under the metadata's OrigFlags and Exptime and the command's key",
+					"the value read back is stored again with "+strings.Join(uniq(bad), ", ")+" instead of the flags / expiry recorded in the item's metadata / the command's key: an append or prepend changes the item's flags or lifetime")
 			}
 		})
 	}
